@@ -816,6 +816,30 @@ impl Session {
         Ok(len)
     }
 
+    /// Verification hook: raw snapshot of the session and its two windows.
+    #[cfg(rs_matter_verif)]
+    pub fn verif_raw(&self) -> [u32; 17] {
+        [
+            self.initiator as u32,
+            self.is_established() as u32,
+            self.version as u32,
+            self.mtu as u32,
+            self.window_size as u32,
+            self.handshake_pending as u32,
+            self.relaxed_mtu_nego as u32,
+            self.recv_window.buf.len() as u32,
+            self.recv_window.buf_messages_ct as u32,
+            self.recv_window.level as u32,
+            self.recv_window.ack_level as u32,
+            self.recv_window.ack_seq as u32,
+            self.recv_window.rem_msg_len as u32,
+            self.send_window.window_size as u32,
+            self.send_window.level as u32,
+            self.send_window.last_sent_seq_num as u32,
+            (self.send_window.sent_at != Instant::MAX) as u32,
+        ]
+    }
+
     fn initial_window_size(mtu: u16) -> u8 {
         min(MAX_MESSAGE_SIZE as u16 / mtu / 2, 255) as _
     }
